@@ -5,7 +5,13 @@ run(ctx):
   2. tie: generated histories are executed by the C code of the CURRENT tree (harness/C04/drv.c, ASan+UBSan,
      allocator shim with a fault schedule) and by the extracted Gallina model (coq/C04/VecDefs.v through
      harness/C04/mdrv.ml); the canonical lines (return value / returned offset and what it points to /
-     destructor calls / allocator requests / siz,num,mem,contents / ledger) are compared line by line;
+     destructor calls / allocator requests / siz,num,mem,contents / verdict on all inline accessors / ledger)
+     are compared line by line.  Every public function of vec.h / buf.h is called: containers are built by
+     new/die and by a_alloc + ctor / dtor + a_alloc (case lines vc/vx/bc/bx), pushes and pulls also go through
+     the aliases a_vec_push / a_vec_pull / a_buf_push / a_buf_pull (operations push / pull), and after EVERY
+     operation the driver evaluates every accessor (a_vec_ptr/siz/num/mem, a_vec_at_/at/of/top_/top/end_/end
+     and the a_buf_* ones; unchecked ones where their precondition holds) against the fields: token acc=ok or
+     acc=BAD:<function>:<got>:<want>;
   3. search oracle: class Spec below is the property itself (Python list semantics, independent of the model)
      evaluated on what the C code printed; crashes (ASan/UBSan) and hangs are failing inputs as well.
      Failing histories are shrunk by delta debugging and written to replays/C04/.
@@ -36,7 +42,10 @@ META = {
             "unchanged; a_vec_setm growth policy meets the request or reports A_OMEMORY unchanged. The guards repaired by the "
             "fix: commits are characterised (..._fixed) and the original ones refuted by witness (..._refuted). Tie: extracted "
             "model vs the C (ASan+UBSan, allocator shim with fault schedule): return value, returned offset and element behind "
-            "it, destructor calls, allocator requests, siz/num/mem/contents and ledger after EVERY operation.",
+            "it, destructor calls, allocator requests, siz/num/mem/contents and ledger after EVERY operation; every public "
+            "function of vec.h/buf.h is called (ctor/dtor as well as new/die, the push/pull aliases, and all field and "
+            "element accessors, checked and unchecked, evaluated after every operation and compared with the fields; the "
+            "unchecked ones are proved to stay inside owned storage without 64-bit wrap under the invariant).",
     "note": "Trusted: Coq kernel; extraction (ExtrOcamlBasic only) + harness/C04/mdrv.ml, drv.c and its allocator shim; "
             "hand-written model coq/C04/VecDefs.v tied by differential testing on the generated histories only (sizes 0-13, "
             "indices aimed at 0, num-1, num, num+1, 2^63, 2^64-1 and the wrap points); memcpy/memmove as list splices, "
@@ -54,7 +63,14 @@ CORPUS = vlib.VERIF / "corpus" / PID
 M64 = 1 << 64
 SIZE_MAX = M64 - 1
 LIMIT = 0x10000            # allocator shim refuses larger requests
+SMALL_LIMIT = 0x1000       # ... in half of the generated histories
 SIZES = [0, 1, 2, 3, 4, 8, 13]
+ELEM_MAX = 65536           # harness/C04/drv.c: above this element size no element byte is ever read or written
+# element sizes for which siz * capacity leaves 64 bits (or a_diff) after a handful of elements
+HUGE_SIZES = sorted(set(b + d for b in (SIZE_MAX // 8, SIZE_MAX // 4, SIZE_MAX // 2, SIZE_MAX // 16, SIZE_MAX // 3,
+                                        1 << 32, 1 << 33, 1 << 48, 1 << 60, 1 << 61, 1 << 62, 1 << 63,
+                                        SIZE_MAX - 2)
+                        for d in (-2, -1, 0, 1, 2) if ELEM_MAX < b + d <= SIZE_MAX))
 
 
 # ============================================================================ the property (search oracle)
@@ -104,8 +120,22 @@ class Arr:
 
 
 def fit(v, siz):
+    if siz > ELEM_MAX:
+        return None            # the driver never touches such an element: it prints "?"
     b = bytes.fromhex(v) if v not in ("-", "_") else b""
     return (b + bytes(siz))[:siz]
+
+
+def unhex(x):
+    return None if x == "?" else bytes.fromhex(x)
+
+
+def hx(x):
+    return "?" if x is None else x.hex()
+
+
+def srt(l):
+    return sorted(l, key=hx)
 
 
 def parse_line(ln):
@@ -115,14 +145,18 @@ def parse_line(ln):
         raise Bad("unparsable line: %r" % ln[:200])
     ret, d, e, st, lc, lb = m.groups()
     states = {}
-    for sm in re.finditer(r" (v0|v1|b):(nil|z=(\d+),n=(\d+),m=(\d+),p=(\d)\[([^\]]*)\])", st):
+    acc = {}
+    for sm in re.finditer(r" (v0|v1|b):(nil|z=(\d+),n=(\d+),m=(\d+),p=(\d),o=(\d+|\?)\[([^\]]*)\](?: acc=(\S+))?)", st):
         tag = sm.group(1)
         if sm.group(2) == "nil":
             states[tag] = None
         else:
             states[tag] = {"z": int(sm.group(3)), "n": int(sm.group(4)), "m": int(sm.group(5)),
-                           "p": int(sm.group(6)),
-                           "c": [bytes.fromhex(x) for x in sm.group(7).split(",")] if sm.group(7) else []}
+                           "p": int(sm.group(6)), "o": None if sm.group(7) == "?" else int(sm.group(7)),
+                           "c": [unhex(x) for x in sm.group(8).split(",")] if sm.group(8) else []}
+            acc[tag] = sm.group(9)
+    xm = re.search(r" x:z=(\d+),n=(\d+),m=(\d+),p=(\d)", st)
+    left = {"z": int(xm.group(1)), "n": int(xm.group(2)), "m": int(xm.group(3)), "p": int(xm.group(4))} if xm else None
     r = {"raw": ret}
     if ret == "void":
         r["k"] = "void"
@@ -142,8 +176,32 @@ def parse_line(ln):
         r["c"] = None if ret[6:] == "none" else bytes.fromhex(ret[6:])
     else:
         raise Bad("implementation printed %r" % ret)
-    return {"ret": r, "dtor": [bytes.fromhex(x) for x in d.split(",")] if d else [],
-            "ev": e.split(",") if e else [], "states": states, "ledger": (int(lc), int(lb))}
+    return {"ret": r, "dtor": [unhex(x) for x in d.split(",")] if d else [],
+            "ev": e.split(",") if e else [], "states": states, "ledger": (int(lc), int(lb)),
+            "acc": acc, "left": left}
+
+
+def check_acc(obs):
+    """The accessor verdict of every container printed on the line: a disagreement between an inline accessor of
+    vec.h / buf.h and the fields of the structure is a violation on its own (message starts with 'accessor <fn>')."""
+    for tag, a in sorted(obs["acc"].items()):
+        if a == "ok":
+            continue
+        if a is None:
+            raise Bad("accessor verdict missing for %s" % tag)
+        m = re.match(r"BAD:(a_\w+):([^:]*):([^:]*)$", a)
+        if not m:
+            raise Bad("accessor verdict unreadable for %s: %r" % (tag, a))
+        raise Bad("accessor %s returned %s on %s (siz=%d num=%d mem=%d), the structure implies %s"
+                  % (m.group(1), m.group(2), tag, obs["states"][tag]["z"], obs["states"][tag]["n"],
+                     obs["states"][tag]["m"], m.group(3)))
+
+
+# case lines / operations that reach the same library code through another public entry point
+ENTRY = {"vc": "vn", "vx": "vd", "bc": "bn", "bx": "bd"}
+ENTRY_FN = {"vn": "a_vec_new", "vc": "a_vec_ctor", "vd": "a_vec_die", "vx": "a_vec_dtor",
+            "bn": "a_buf_new", "bc": "a_buf_ctor", "bd": "a_buf_die", "bx": "a_buf_dtor"}
+OP_ALIAS = {"push": "pushb", "pull": "pullb"}
 
 
 class Spec:
@@ -166,9 +224,16 @@ class Spec:
             raise Bad("%s: element count %d exceeds capacity %d" % (what, st["n"], st["m"]))
         if st["z"] != a.siz:
             raise Bad("%s: element size is %d, expected %d" % (what, st["z"], a.siz))
-        if st["n"] != len(a.seq) or st["c"] != a.seq:
+        # capacity describes real storage: siz * mem (exact, no 64-bit wrap) fits the block the allocator handed out
+        if st["o"] is None:
+            raise Bad("%s: the element storage is not a live block of the allocator" % what)
+        if st["z"] * st["m"] > st["o"]:
+            raise Bad("%s: capacity %d x element size %d = %d bytes, but the storage owned is %d bytes"
+                      % (what, st["m"], st["z"], st["z"] * st["m"], st["o"]))
+        shown = a.seq if a.siz <= ELEM_MAX else a.seq[:16]      # elements too large to touch print as "?", 16 at most
+        if st["n"] != len(a.seq) or st["c"] != shown:
             raise Bad("%s: contents %s (num=%d) differ from the abstract sequence %s"
-                      % (what, [x.hex() for x in st["c"]], st["n"], [x.hex() for x in a.seq]))
+                      % (what, [hx(x) for x in st["c"]], st["n"], [hx(x) for x in a.seq]))
 
     def _check_ptr(self, a, st, r, what, slot=None, content=None, notlive=False, null=False):
         if r["k"] != "ptr":
@@ -183,18 +248,24 @@ class Spec:
         if off % a.siz or off // a.siz >= st["m"]:
             raise Bad("%s: returned pointer (offset %d) is not an element slot inside the %d*%d bytes owned"
                       % (what, off, st["m"], a.siz))
+        if st["o"] is None or off + a.siz > st["o"]:
+            raise Bad("%s: the element behind the returned pointer (offset %d, %d bytes) is not inside the %s bytes "
+                      "of storage owned" % (what, off, a.siz, st["o"]))
         if slot is not None and off != slot * a.siz:
             raise Bad("%s: returned offset %d, expected slot %d (offset %d)" % (what, off, slot, slot * a.siz))
         if notlive and off // a.siz < st["n"]:
             raise Bad("%s: returned pointer aliases live element %d" % (what, off // a.siz))
         if content is not None and r.get("c") != content:
             raise Bad("%s: element behind the returned pointer is %s, expected %s"
-                      % (what, r["c"].hex() if r.get("c") is not None else "?", content.hex()))
+                      % (what, hx(r.get("c")), hx(content)))
 
     # -------------------------------------------------------------- one operation
     def step(self, t, obs=None):
         """t: tokens of the case line.  obs: parsed output line or None (predict)."""
-        k = t[0]
+        k = ENTRY.get(t[0], t[0])
+        fn = ENTRY_FN.get(t[0], t[0])
+        if obs is not None:
+            check_acc(obs)
         if k == "vn":
             w = int(t[1])
             if self.v[w] is None:
@@ -202,12 +273,15 @@ class Spec:
                 if obs is not None:
                     ok = not any(e.endswith("-") for e in obs["ev"])
                     if (obs["states"].get("v%d" % w) is not None) != ok:
-                        raise Bad("a_vec_new: result does not match the allocator's answer")
+                        raise Bad("%s: result does not match the allocator's answer" % fn)
                 if ok:
                     self.v[w] = Arr("v", int(t[2], 16), 0, False)
                     self.live += 1
+                    st = obs["states"].get("v%d" % w) if obs is not None else None
+                    if st is not None and (st["m"] != 0 or st["p"]):
+                        raise Bad("%s: a fresh vector reports capacity %d, storage %d" % (fn, st["m"], st["p"]))
             if obs is not None and self.v[w] is not None:
-                self._expect_state(self.v[w], obs["states"].get("v%d" % w), "a_vec_new")
+                self._expect_state(self.v[w], obs["states"].get("v%d" % w), fn)
             return
         if k == "vd":
             w = int(t[1])
@@ -215,15 +289,20 @@ class Spec:
             if a is not None:
                 if obs is not None:
                     exp = list(reversed(a.seq)) if t[2] == "1" else []
-                    if sorted(obs["dtor"]) != sorted(exp):
-                        raise Bad("a_vec_die: destructor ran on %s, expected %s"
-                                  % ([x.hex() for x in obs["dtor"]], [x.hex() for x in exp]))
+                    if srt(obs["dtor"]) != srt(exp):
+                        raise Bad("%s: destructor ran on %s, expected %s"
+                                  % (fn, [hx(x) for x in obs["dtor"]], [hx(x) for x in exp]))
                     if "BAD" in obs["ev"]:
-                        raise Bad("a_vec_die: freed a block that is not live")
+                        raise Bad("%s: freed a block that is not live" % fn)
+                    if t[0] == "vx":
+                        lf = obs["left"]
+                        if lf is None or lf["n"] or lf["m"] or lf["p"]:
+                            raise Bad("a_vec_dtor: the structure is left with %s, expected no elements, no capacity, "
+                                      "no storage" % (lf,))
                 self.live -= 2 if a.hasptr else 1
                 self.v[w] = None
                 if obs is not None and obs["ledger"][0] != self.live:
-                    raise Bad("a_vec_die: %d blocks live afterwards, expected %d" % (obs["ledger"][0], self.live))
+                    raise Bad("%s: %d blocks live afterwards, expected %d" % (fn, obs["ledger"][0], self.live))
             return
         if k == "vs":
             if self.v[0] is not None and self.v[1] is not None:
@@ -242,37 +321,49 @@ class Spec:
                 if obs is not None:
                     ok = not any(e.endswith("-") for e in obs["ev"])
                     if (obs["states"].get("b") is not None) != ok:
-                        raise Bad("a_buf_new: result does not match the allocator's answer")
+                        raise Bad("%s: result does not match the allocator's answer" % fn)
                     if ok and obs["ev"] and obs["ev"][0] != "M%d+" % (24 + siz * num):
-                        raise Bad("a_buf_new(%d,%d): requested %s, needs %d bytes"
-                                  % (int(t[1], 16), num, obs["ev"][0], 24 + siz * num))
+                        raise Bad("%s(%d,%d): requested %s, needs %d bytes"
+                                  % (fn, int(t[1], 16), num, obs["ev"][0], 24 + siz * num))
                 if ok:
                     self.b = Arr("b", siz, num, True)
                     self.live += 1
             if obs is not None and self.b is not None:
-                self._expect_state(self.b, obs["states"].get("b"), "a_buf_new")
+                self._expect_state(self.b, obs["states"].get("b"), fn)
                 if obs["states"]["b"]["m"] != self.b.mem:
-                    raise Bad("a_buf_new: capacity %d, expected %d" % (obs["states"]["b"]["m"], self.b.mem))
+                    raise Bad("%s: capacity %d, expected %d" % (fn, obs["states"]["b"]["m"], self.b.mem))
             return
         if k == "bd":
             a = self.b
             if a is not None:
                 if obs is not None:
                     exp = a.seq if t[1] == "1" else []
-                    if sorted(obs["dtor"]) != sorted(exp):
-                        raise Bad("a_buf_die: destructor ran on %s" % [x.hex() for x in obs["dtor"]])
+                    if srt(obs["dtor"]) != srt(exp):
+                        raise Bad("%s: destructor ran on %s" % (fn, [hx(x) for x in obs["dtor"]]))
                     if "BAD" in obs["ev"]:
-                        raise Bad("a_buf_die: freed a block that is not live")
+                        raise Bad("%s: freed a block that is not live" % fn)
+                    if t[0] == "bx":
+                        lf = obs["left"]
+                        if lf is None or lf["n"] or lf["m"] != a.mem or lf["z"] != a.siz:
+                            raise Bad("a_buf_dtor: the structure is left with %s, expected no elements, capacity %d, "
+                                      "element size %d" % (lf, a.mem, a.siz))
                 self.live -= 1
                 self.b = None
                 if obs is not None and obs["ledger"][0] != self.live:
-                    raise Bad("a_buf_die: %d blocks live afterwards, expected %d" % (obs["ledger"][0], self.live))
+                    raise Bad("%s: %d blocks live afterwards, expected %d" % (fn, obs["ledger"][0], self.live))
             return
         if k == "v":
             w = int(t[1])
             a = self.v[w]
             if a is None:
                 return
+            if obs is not None:
+                # the vector never asks the allocator for more bytes than a_diff can represent
+                for e in obs["ev"]:
+                    m = re.match(r"[MR](\d+)[+-]$", e)
+                    if m and int(m.group(1)) >= 1 << 63:
+                        raise Bad("a_vec_%s(%s): asked the allocator for %s bytes, more than a_diff (2^63-1) can "
+                                  "represent" % (t[2], ",".join(t[3:]), m.group(1)))
             self.op(a, t[2:], obs, obs["states"].get("v%d" % w) if obs else None)
             return
         if k == "b":
@@ -318,13 +409,13 @@ class Spec:
         return True
 
     def op(self, a, t, obs, st):
-        o = t[0]
+        o = OP_ALIAS.get(t[0], t[0])           # a_vec_push = a_vec_push_back, a_vec_pull = a_vec_pull_back
         r = obs["ret"] if obs else None
         if obs is not None and st is None:
             raise Bad("container state missing in the output")
         pre = a.copy()
         n = len(a.seq)
-        name = ("a_buf_" if a.kind == "b" else "a_vec_") + o
+        name = ("a_buf_" if a.kind == "b" else "a_vec_") + t[0]
         what = "%s(%s)" % (name, ",".join(t[1:]))
 
         def want_rc(rc):
@@ -333,14 +424,14 @@ class Spec:
 
         def no_dtor():
             if obs is not None and obs["dtor"]:
-                raise Bad("%s: destructor ran on %s" % (what, [x.hex() for x in obs["dtor"]]))
+                raise Bad("%s: destructor ran on %s" % (what, [hx(x) for x in obs["dtor"]]))
 
         def want_dtor(exp, flag):
             if obs is not None:
                 exp = exp if flag else []
-                if sorted(obs["dtor"]) != sorted(exp):
+                if srt(obs["dtor"]) != srt(exp):
                     raise Bad("%s: destructor ran on %s, expected %s"
-                              % (what, [x.hex() for x in obs["dtor"]], [x.hex() for x in exp]))
+                              % (what, [hx(x) for x in obs["dtor"]], [hx(x) for x in exp]))
 
         def refused_ptr():
             if obs is not None:
@@ -400,7 +491,7 @@ class Spec:
                 elif obs is not None:
                     if st is None or sorted(st["c"]) != sorted(a.seq):
                         raise Bad("%s: elements were lost or invented: %s -> %s"
-                                  % (what, [x.hex() for x in a.seq], st and [x.hex() for x in st["c"]]))
+                                  % (what, [hx(x) for x in a.seq], st and [hx(x) for x in st["c"]]))
                     a.seq = list(st["c"])      # precondition not met: any permutation is accepted
                 else:
                     a.seq = model_sort_one(a, o)
@@ -538,6 +629,8 @@ def check_history(case_lines, out_lines, limit=LIMIT):
     j = 0
     for i, ln in enumerate(case_lines):
         t = ln.split()
+        if t and t[0] == "H" and len(t) > 1:
+            sp.limit = int(t[1], 16)
         if not t or t[0] == "H":
             continue
         if j >= len(out_lines):
@@ -582,11 +675,14 @@ def pick_cnt(rng, n, idx):
 
 def gen_history(rng, nops, faulty=False):
     """One history: list of case lines (first is the H line)."""
-    sp = Spec()
+    # allocator limit of the history.  Requests aimed exactly AT the limit succeed and leave limit / siz elements,
+    # which the list-based model fills in quadratic time: they are only made under the small limit.
+    lim = rng.choice((LIMIT, SMALL_LIMIT))
+    sp = Spec(lim)
     sched = "-"
     if faulty:
         sched = "".join("0" if rng.random() < 0.25 else "1" for _ in range(rng.randrange(1, 30)))
-    lines = ["H %x %s" % (LIMIT, sched)]
+    lines = ["H %x %s" % (lim, sched)]
     emode = rng.randrange(3)
     focus = rng.random()
 
@@ -600,18 +696,37 @@ def gen_history(rng, nops, faulty=False):
     def cur(w):
         return sp.b if w == "b" else sp.v[w]
 
+    # the same library code through either public entry point: new / ctor, die / dtor, push_back / push, pull_back / pull
+    def VN():
+        return rng.choice(("vn", "vc"))
+
+    def VD():
+        return rng.choice(("vd", "vx"))
+
+    def BN():
+        return rng.choice(("bn", "bc"))
+
+    def BD():
+        return rng.choice(("bd", "bx"))
+
+    def PUSHB():
+        return rng.choice(("pushb", "pushb", "push"))
+
+    def PULLB():
+        return rng.choice(("pullb", "pull"))
+
     def prefix(w):
         return "b" if w == "b" else "v %d" % w
 
     # set-up
     if focus < 0.7:
-        emit("vn 0 %x" % rng.choice(SIZES))
+        emit("%s 0 %x" % (VN(), rng.choice(SIZES)))
         if rng.random() < 0.3:
-            emit("vn 1 %x" % rng.choice(SIZES))
+            emit("%s 1 %x" % (VN(), rng.choice(SIZES)))
         targets = [0]
     else:
         siz = rng.choice(SIZES)
-        emit("bn %x %x" % (siz, rng.choice([0, 1, 2, 3, 5, 8, 9, 16])))
+        emit("%s %x %x" % (BN(), siz, rng.choice([0, 1, 2, 3, 5, 8, 9, 16])))
         targets = ["b"]
     while len(lines) < nops:
         if sp.v[1] is not None and 1 not in targets:
@@ -621,9 +736,9 @@ def gen_history(rng, nops, faulty=False):
         if a is None:
             # (re)create
             if w == "b":
-                emit("bn %x %x" % (rng.choice(SIZES), rng.choice([0, 1, 2, 4, 7, 8, 12])))
+                emit("%s %x %x" % (BN(), rng.choice(SIZES), rng.choice([0, 1, 2, 4, 7, 8, 12])))
             else:
-                emit("vn %d %x" % (w, rng.choice(SIZES)))
+                emit("%s %d %x" % (VN(), w, rng.choice(SIZES)))
             if faulty and rng.random() < 0.5:
                 continue
             a = cur(w)
@@ -637,7 +752,7 @@ def gen_history(rng, nops, faulty=False):
         e = lambda: rnd_elem(rng, siz, emode)
         c = rng.random()
         if c < 0.10:
-            emit("%s pushb %s" % (P, e()))
+            emit("%s %s %s" % (P, PUSHB(), e()))
         elif c < 0.16:
             emit("%s pushf %s" % (P, e()))
         elif c < 0.26:
@@ -645,7 +760,7 @@ def gen_history(rng, nops, faulty=False):
         elif c < 0.38:
             emit("%s rem %x" % (P, pick_idx(rng, n, m)))
         elif c < 0.42:
-            emit("%s %s" % (P, rng.choice(["pullf", "pullb"])))
+            emit("%s %s" % (P, rng.choice(["pullf", "pullf", "pullb", "pull"])))
         elif c < 0.50:
             k = rng.choice([0, 1, 1, 2, 3, 5, max(m - n, 0), max(m - n, 0) + 1])
             k = min(k, 24)
@@ -658,7 +773,7 @@ def gen_history(rng, nops, faulty=False):
             # fill to exactly full, then an operation whose implementation depends on a spare slot
             k = 0
             while a is not None and len(a.seq) < a.mem and k < 40 and len(lines) < nops + 40:
-                emit("%s pushb %s" % (P, e()))
+                emit("%s %s %s" % (P, PUSHB(), e()))
                 k += 1
             d = rng.random()
             if d < 0.4:
@@ -670,11 +785,12 @@ def gen_history(rng, nops, faulty=False):
                 emit("%s sortf" % P)
             elif d < 0.8:
                 emit("%s sort" % P)
-                emit("%s pullb" % P)
-                emit("%s pushb %s" % (P, e()))
+                emit("%s %s" % (P, PULLB()))
+                emit("%s %s %s" % (P, PUSHB(), e()))
                 emit("%s sortb" % P)
             else:
-                emit("%s %s" % (P, rng.choice(["sortf", "sortb", "pushs " + e(), "ins 1 " + e(), "pushb " + e()])))
+                emit("%s %s" % (P, rng.choice(["sortf", "sortb", "pushs " + e(), "ins 1 " + e(), "pushb " + e(),
+                                               "push " + e()])))
         elif c < 0.74:
             # sorted-insert in a sorted context
             emit("%s sort" % P)
@@ -697,7 +813,8 @@ def gen_history(rng, nops, faulty=False):
                 nn = rng.choice([0, 1, max(n - 1, 0), n, n + 1, n + 3, m, m + 1, rng.randrange(0, 40)])
             else:
                 nn = rng.choice([SIZE_MAX, SIZE_MAX - 7, 1 << 63, (1 << 63) - 1, 1 << 61, 1 << 60,
-                                 vec_max_cap(siz), vec_max_cap(siz) + 1, LIMIT // siz + 1, LIMIT // siz, 1 << 32])
+                                 vec_max_cap(siz), vec_max_cap(siz) + 1, lim // siz + 1,
+                                 lim // siz + (lim > SMALL_LIMIT), 1 << 32])
             emit("%s setn %x %d %s" % (P, nn, rng.randrange(2), e()))
         elif c < 0.88:
             d = rng.random()
@@ -705,7 +822,8 @@ def gen_history(rng, nops, faulty=False):
                 mm = rng.choice([0, 1, max(n - 1, 0), n, n + 1, m, m + 1, m + 9, rng.randrange(0, 50)])
             else:
                 mm = rng.choice([SIZE_MAX, 1 << 63, 1 << 61, vec_max_cap(siz), vec_max_cap(siz) + 1,
-                                 LIMIT // siz + 1, LIMIT // siz, (M64 - 24) // siz, (M64 - 24) // siz + 1])
+                                 lim // siz + 1, lim // siz + (lim > SMALL_LIMIT), (M64 - 24) // siz,
+                                 (M64 - 24) // siz + 1])
             if w == "b" and mm * siz + 24 >= M64:
                 mm = rng.randrange(0, 30)      # byte size must be representable: documented precondition
             emit("%s setm %x" % (P, mm))
@@ -727,16 +845,16 @@ def gen_history(rng, nops, faulty=False):
                 if sp.v[0] is not None and sp.v[1] is not None:
                     emit("vs")
                 elif sp.v[1] is None:
-                    emit("vn 1 %x" % rng.choice(SIZES))
+                    emit("%s 1 %x" % (VN(), rng.choice(SIZES)))
         else:
             if w == "b":
-                emit("bd %d" % rng.randrange(2))
+                emit("%s %d" % (BD(), rng.randrange(2)))
             else:
-                emit("vd %d %d" % (w, rng.randrange(2)))
+                emit("%s %d %d" % (VD(), w, rng.randrange(2)))
     # tear down: the ledger must end empty
-    emit("vd 0 %d" % rng.randrange(2))
-    emit("vd 1 %d" % rng.randrange(2))
-    emit("bd %d" % rng.randrange(2))
+    emit("%s 0 %d" % (VD(), rng.randrange(2)))
+    emit("%s 1 %d" % (VD(), rng.randrange(2)))
+    emit("%s %d" % (BD(), rng.randrange(2)))
     return lines
 
 
@@ -757,10 +875,12 @@ def systematic():
                         continue
                     P = "v 0" if kind == "v" else "b"
                     pre = ["H %x -" % LIMIT]
-                    pre.append("vn 0 %x" % siz if kind == "v" else "bn %x %x" % (siz, n if full else n + 2))
+                    byhand = n % 2 == 1        # odd counts: a_alloc + ctor ... dtor + a_alloc instead of new ... die
+                    pre.append(("vc 0 %x" if byhand else "vn 0 %x") % siz if kind == "v"
+                               else ("bc %x %x" if byhand else "bn %x %x") % (siz, n if full else n + 2))
                     if n:
                         pre.append("%s store 0 %s 0" % (P, ",".join(el(2 * i + 3) for i in range(n))))
-                    post = ["vd 0 1" if kind == "v" else "bd 1"]
+                    post = [("vx 0 1" if byhand else "vd 0 1") if kind == "v" else ("bx 1" if byhand else "bd 1")]
                     idxs = sorted(set([0, 1, n // 2, max(n - 2, 0), max(n - 1, 0), n, n + 1, 1 << 63, SIZE_MAX - 1, SIZE_MAX]))
                     ops = []
                     for i in idxs:
@@ -775,7 +895,8 @@ def systematic():
                                 "search " + el(key)]
                         if n:
                             ops += ["pullf|pushf %s|sortf" % el(key), "pullb|pushb %s|sortb" % el(key)]
-                    ops += ["pullf", "pullb", "pushf " + el(1), "pushb " + el(1), "top", "end", "sort", "sortf", "sortb",
+                    ops += ["pullf", "pullb", "pull", "pushf " + el(1), "pushb " + el(1), "push " + el(1),
+                            "push %s|push %s|pull" % (el(1), el(2)), "top", "end", "sort", "sortf", "sortb",
                             "setz 0 1", "setz 3 0", "setz %x 1" % siz]
                     for m in sorted(set([0, max(n - 1, 0), n, n + 1, n + 2, n + 9, SIZE_MAX, 1 << 63, vec_max_cap(siz),
                                          vec_max_cap(siz) + 1])):
@@ -784,6 +905,46 @@ def systematic():
                             ops.append("setm %x" % m)
                     for o in ops:
                         out.append(pre + ["%s %s" % (P, x) for x in o.split("|")] + ["%s top" % P] + post)
+    return out
+
+
+def huge_histories(rng, n_random):
+    """Vectors whose ELEMENT SIZE is huge (around SIZE_MAX/16 .. SIZE_MAX, 2^32 .., each +-2): siz * capacity
+    leaves 64 bits after a handful of elements, so the capacity arithmetic of a_vec_setm is exercised where a
+    rounding step matters.  No such element can exist (every request exceeds the allocator limit or a_diff), so
+    correct code refuses every growth; the driver never touches element bytes.  Only operations whose model
+    does not materialise an element are used (no sort / search / push_sort / setz)."""
+    out = []
+
+    def script(siz, k, r):
+        mx = vec_max_cap(siz)
+        raw = ((1 << 63) - 1) // siz            # the byte limit before rounding down to a multiple of 8
+        caps = sorted(set([0, 1, 2, 3, 7, 8, 9, mx, mx + 1, raw, raw + 1, max(raw - 1, 0), 16, SIZE_MAX, 1 << 63]))
+        new = ("vn", "vc")[k % 2]
+        die = ("vd", "vx")[(k // 2) % 2]
+        ops = ["top", "end", "at 0", "of ffffffffffffffff", "pullb", "rem 0"]
+        grow = ["pushb 01", "push 02", "pushf 03", "ins 0 04", "ins ffffffffffffffff 05", "store 0 06 0", "store 0 - 0"]
+        grow += ["setm %x" % c for c in caps] + ["setn %x %d 07" % (c, c % 2) for c in caps]
+        if r is None:
+            body = []
+            for g in grow:
+                body += [g, "top"]
+            body += ["pushb 01", "pushb 02", "at 1", "pull", "erase 0 1 1"] + ops
+        else:
+            body = [r.choice(grow + ops + ["pull", "pullf", "erase 0 %x 1" % r.choice([0, 1, SIZE_MAX]), "vs"])
+                    for _ in range(r.randrange(4, 25))]
+        h = ["H %x -" % LIMIT, "%s 0 %x" % (new, siz)]
+        if r is not None and r.random() < 0.4:
+            h.append("%s 1 %x" % (new, r.choice(HUGE_SIZES)))
+        for b in body:
+            h.append(b if b == "vs" else "v %d %s" % (0 if r is None or r.random() < 0.8 else 1, b))
+        h += ["%s 0 1" % die, "%s 1 0" % die]
+        return h
+
+    for k, siz in enumerate(HUGE_SIZES):
+        out.append(script(siz, k, None))
+    for i in range(n_random):
+        out.append(script(rng.choice(HUGE_SIZES), i, rng))
     return out
 
 
@@ -901,7 +1062,13 @@ def op_key(hist, idx):
         return "a_vec_" + FN.get(t[2], t[2])
     if t[0] == "b":
         return "a_buf_" + FN.get(t[1], t[1])
-    return {"vn": "a_vec_new", "vd": "a_vec_die", "vs": "a_vec_swap", "bn": "a_buf_new", "bd": "a_buf_die"}.get(t[0], t[0])
+    return dict(ENTRY_FN, vs="a_vec_swap").get(t[0], t[0])
+
+
+def failure_key(hist, idx, msg):
+    """Key of a finding: the accessor named by the driver's verdict, else the function of the failing operation."""
+    m = re.match(r"accessor (a_(?:vec|buf)_\w+) ", msg)
+    return m.group(1) if m else op_key(hist, idx)
 
 
 # ============================================================================ coverage classification
@@ -909,7 +1076,7 @@ def classify(t, a):
     """Branch tag of an operation from the pre-state (a: Arr or None).  Mirrors the case splits of the model."""
     if a is None:
         return t[0]
-    o = t[0]
+    o = OP_ALIAS.get(t[0], t[0])
     n, m = len(a.seq), a.mem
     K = a.kind + "."
     full = "full" if n >= m else "spare"
@@ -978,7 +1145,7 @@ def classify(t, a):
 
 
 TRIVIAL_TAGS = ("at", "of:pos", "of:neg", "top", "end", "search", "setm:noop", "setn:same", "sortf:trivial",
-                "sortb:trivial", "vn", "vd", "bn", "bd", "vs")
+                "sortb:trivial", "vn", "vd", "bn", "bd", "vs", "vc", "vx", "bc", "bx")
 
 
 # ============================================================================ the check
@@ -994,10 +1161,12 @@ def report_failure(ctx, cbin, hist, origin, reported):
     v = c_fails(cbin, hist)
     if v is None:
         return False
+    if failure_key(hist, v[0], v[1]) in reported:
+        return True                   # this call site already has a shrunk failing history: no need for another
     small = shrink(cbin, hist)
     v2 = c_fails(cbin, small) or v
     idx, msg = v2
-    key = op_key(small, idx)
+    key = failure_key(small, idx, msg)
     if key in reported:
         return True
     reported.add(key)
@@ -1023,6 +1192,7 @@ def run(ctx):
     hists = [h for _, h in corpus]
     n_corpus = len(hists)
     hists += systematic()
+    hists += huge_histories(random.Random(ctx.subseed("huge")), 150 if quick else 1500)
     n_sys = len(hists) - n_corpus
     seeds = 1 if quick else 5
     per_seed = 2500 if quick else 12000
@@ -1041,6 +1211,8 @@ def run(ctx):
     reported = set()
     n_ops = 0
     tags = {}
+    entry = {}                # calls per public entry point that has a twin (new/ctor, die/dtor, push_back/push, ...)
+    n_acc = 0                 # accessor verdicts printed by the implementation and compared with the model's
     distinct = set()
     model_errors = 0
     first_div = None
@@ -1077,6 +1249,14 @@ def run(ctx):
                 tg = t[0]
             tags[tg] = tags.get(tg, 0) + 1
             if j < len(c["lines"]):
+                n_acc += c["lines"][j].count(" acc=ok")
+                if a is not None or t[0] in ENTRY_FN:
+                    opn = t[2] if t[0] == "v" else t[1] if t[0] == "b" else None
+                    if t[0] in ENTRY_FN:
+                        entry[ENTRY_FN[t[0]]] = entry.get(ENTRY_FN[t[0]], 0) + 1
+                    elif opn in ("push", "pull", "pushb", "pullb"):
+                        nm = ("a_vec_" if t[0] == "v" else "a_buf_") + FN.get(opn, opn)
+                        entry[nm] = entry.get(nm, 0) + 1
                 if not tg.endswith(TRIVIAL_TAGS) and tg != "absent":
                     distinct.add(hash((ln, c["lines"][j])))
                 try:
@@ -1099,12 +1279,16 @@ def run(ctx):
     if model_errors:
         ctx.tie_broken("the model reported an internal error (MODEL-ERROR) in %d histories" % model_errors)
     # search: shrink and report real failures (one per call site)
-    budget = 10
+    budget = 10                       # distinct call sites reported
+    attempts = 0
     for hi in suspects:
-        if budget <= 0:
+        if budget <= 0 or attempts >= 300:
             break
-        if report_failure(ctx, cbin, hists[hi], "corpus " + corpus[hi][0] if hi < n_corpus else "generated history %d" % hi,
-                          reported):
+        attempts += 1
+        n_before = len(reported)
+        report_failure(ctx, cbin, hists[hi], "corpus " + corpus[hi][0] if hi < n_corpus else "generated history %d" % hi,
+                       reported)
+        if len(reported) > n_before:
             budget -= 1
     if ctx.broken_ties and not reported:
         # the tie broke but no history violated the property: look further with fresh histories (oracle only)
@@ -1128,8 +1312,14 @@ def run(ctx):
     ctx.cov["systematic_histories"] = n_sys
     ctx.cov["random_histories"] = len(hists) - n_corpus - n_sys
     ctx.cov["branch_hits"] = dict(sorted(tags.items()))
+    ctx.cov["entry_point_calls"] = dict(sorted(entry.items()))
+    ctx.cov["accessor_verdicts_ok"] = n_acc
+    ctx.cov["accessors_evaluated_after_every_operation"] = (
+        "a_vec_ptr a_vec_siz a_vec_num a_vec_mem a_vec_at_ a_vec_at a_vec_of a_vec_top_ a_vec_top a_vec_end_ a_vec_end "
+        "a_buf_ptr a_buf_siz a_buf_num a_buf_mem a_buf_at_ a_buf_at a_buf_of a_buf_top_ a_buf_top a_buf_end").split()
     ctx.cov["branches_not_reached"] = sorted(set(ALL_TAGS) - set(tags))
     ctx.cov["element_sizes"] = SIZES
+    ctx.cov["huge_element_sizes"] = ["%x" % z for z in HUGE_SIZES]
     ctx.cov["repo"] = str(vlib.REPO)
     for hi in (n_corpus + n_sys, n_corpus + n_sys + 1, n_corpus + 7):
         if hi < len(hists) and not cres[hi].get("skipped"):
@@ -1152,7 +1342,7 @@ ALL_TAGS = [k + x for k in ("v.", "b.") for x in (
     "v.insert:mid:grow", "v.insert:end:grow", "v.push_back:grow", "v.store:mid:grow", "v.store:end:grow",
     "v.push_sort:sorted:grow", "v.setn:above-max", "v.setn:alloc-refused", "v.setm:above-max", "v.setm:grow",
     "b.insert:refused", "b.push_back:refused", "b.store:refused", "b.push_sort:refused", "b.setn:clamped",
-    "b.setm:below-num", "b.setm:shrink", "b.setm:grow", "vs", "vn", "vd", "bn", "bd"]
+    "b.setm:below-num", "b.setm:shrink", "b.setm:grow", "vs", "vn", "vd", "bn", "bd", "vc", "vx", "bc", "bx"]
 
 
 def replay(ctx, path):
